@@ -22,7 +22,7 @@ PROPS = {
         rule=("case = (kernel group, N, block of residues p mod 2N | special class list | sampled block | wrapper "
               "call sequence); distinct by descriptor hash; non-trivial when N >= 2 (maps differ from identity "
               "for some p in the block)"),
-        require={"all": ["rot_p_checked", "auto_p_checked", "wrapper_calls", "auto_branch:cycles",
+        require={"all": ["rot_p_checked", "auto_p_checked", "wrapper_calls", "inplace_unequal_size_calls", "auto_branch:cycles",
                          "auto_branch:mirror", "auto_branch:negate", "auto_branch:negamirror",
                          "auto_branch:identity"]},
         assumptions=["index-map oracle uses 128-bit Euclidean remainders; probe a_i=i+1 is injective so one probe "
@@ -43,7 +43,7 @@ PROPS = {
         rule=("case = one call (operation, level module/kernel, module type, dispatch, N, res/a/b limb counts, stride "
               "choices, extra-limb flag); distinct by descriptor hash; non-trivial when res_size >= 1 and at least one "
               "source limb is used"),
-        require={"all": ["limbs_compared", "dispatch:native", "dispatch:generic", "dispatch:kernel-avx", "dispatch:kernel-ref"]},
+        require={"all": ["limbs_compared", "dispatch:native", "dispatch:generic", "dispatch:kernel-avx", "dispatch:kernel-ref", "aliased_calls"]},
         assumptions=["per-limb definition evaluated by the harness (missing limb = 0)",
                      "stride padding and guard bands are ASan-poisoned and carry canaries; inputs are byte-snapshotted", ASAN_NOTE],
     ),
@@ -213,7 +213,7 @@ PROPS = {
         rule=("case = one pair comparison (accelerated catalogue entry ~ its reference twin, N, argument seed) or one "
               "dispatch comparison (public entry point under generic-C and accelerated dispatch, N, seed); both members "
               "receive identical arguments; distinct by descriptor hash; non-trivial when the compared output is non-empty"),
-        require={"all": ["pair_comparisons", "dispatch_comparisons", "class:bitwise", "class:modq", "class:float-budget",
+        require={"all": ["pair_comparisons", "dispatch_comparisons", "concurrent_pair_comparisons", "class:bitwise", "class:modq", "class:float-budget",
                          "class:rounded-int64", "pair:cplx_fftvec_addmul_avx512", "pair:cplx_fftvec_addmul_sse",
                          "pair:reim_fft16_avx_fma", "pair:fft64_vmp_apply_dft_to_dft_avx"]},
         assumptions=["pairwise floating-point budget: relative 2-norm difference <= 2^-42 on the catalogue's random operands "
